@@ -124,7 +124,7 @@ def worker(args):
                     for a in type(o)._attrs_:
                         if a.is_collection: cblob[(l, a.name)] = pickle.dumps(getattr(o, a.name))
             except Exception as e:
-                sub.violation('%s|pickling-raises-%s' % (rel, type(e).__name__),
+                sub.violation('pickling-raises-%s' % type(e).__name__,
                               dict(model=name, fixture=fixture, history=hist), 'pickling loaded objects raised %r' % e)
                 return
             if x.apply(('end',))[0] != 'ok': return
